@@ -59,4 +59,54 @@ def discard : Nat → Br → Nat → Nat × Br
         let r := discard f { b1 with buf := b1.buf.drop k } (n - k)
         (k + r.1, r.2)
 
+/-- `Read(p)` with `len(p) = max > 0` (bufio.Reader.Read): buffered bytes are handed out first; an empty buffer is refilled
+by ONE source read — directly into p when p is at least as large as the buffer, into the buffer otherwise — so a Read may
+return fewer bytes than asked for (a *short read*).  `none` is (0, io.EOF). -/
+def Br.read (b : Br) (max : Nat) : Option Bytes × Br :=
+  if b.buf ≠ [] then (some (b.buf.take max), { b with buf := b.buf.drop max })
+  else if b.src.rest = [] then (none, b)
+  else if b.size ≤ max then
+    let got := b.src.read max
+    (some got.1, { b with src := got.2 })
+  else
+    let got := b.src.read b.size
+    (some (got.1.take max), { b with buf := got.1.drop max, src := got.2 })
+
+/-- `io.ReadFull(br, p)` with `len(p) = n`: Read until n bytes arrived or the stream ended; `false` = io.EOF /
+io.ErrUnexpectedEOF -/
+def readFull : Nat → Br → Nat → Bytes × Bool × Br
+  | 0, b, _ => ([], false, b)
+  | f+1, b, n =>
+    if n = 0 then ([], true, b)
+    else match b.read n with
+      | (none, b') => ([], false, b')
+      | (some got, b') =>
+        let r := readFull f b' (n - got.length)
+        (got ++ r.1, r.2.1, r.2.2)
+
+/-- what is left of a box and of every box around it (isobmff box.Read: `limit`) -/
+def minAll : List Nat → Nat
+  | [] => 0
+  | [a] => a
+  | a :: t => min a (minAll t)
+
+/-- one `box.Read(p)`, `len(p) = max > 0`, for a box whose own and enclosing remaining lengths are `ls` (innermost first):
+nothing beyond the tightest enclosing box is asked of the stream, every box of the chain is charged what arrived -/
+def boxRead (ls : List Nat) (b : Br) (max : Nat) : Option Bytes × List Nat × Br :=
+  if minAll ls = 0 then (none, ls, b)
+  else match b.read (min max (minAll ls)) with
+    | (none, b') => (none, ls, b')
+    | (some got, b') => (some got, ls.map (· - got.length), b')
+
+/-- `io.ReadFull` over a box (what a callback reading an Exif or XMP payload from the box does) -/
+def boxReadFull : Nat → List Nat → Br → Nat → Bytes × Bool × List Nat × Br
+  | 0, ls, b, _ => ([], false, ls, b)
+  | f+1, ls, b, n =>
+    if n = 0 then ([], true, ls, b)
+    else match boxRead ls b n with
+      | (none, ls', b') => ([], false, ls', b')
+      | (some got, ls', b') =>
+        let r := boxReadFull f ls' b' (n - got.length)
+        (got ++ r.1, r.2.1, r.2.2.1, r.2.2.2)
+
 end Imeta.Bufio
